@@ -501,6 +501,8 @@ func lockAnchored(name string) bool {
 		return true
 	case strings.HasPrefix(k, "call-") && strings.Contains(k, "-assert"):
 		return true
+	case strings.HasPrefix(k, "loop") && (strings.Contains(k, "-step") || strings.Contains(k, "-exit")):
+		return true
 	}
 	return false
 }
